@@ -203,4 +203,95 @@ def run (m : M) : List Act → M
   | [] => m
   | a :: rest => run (step m a) rest
 
+/-! ### sequential schedules (what the hand-over stream runs) -/
+
+/-- observation after one operation of the hand-over stream -/
+structure HObs where
+  res : String
+  fd1 : Nat
+  fd2 : Nat
+  sk1 : Nat
+  sk2 : Nat
+  p1 : String
+  p2 : String
+  mid : Option String
+  str : Option String
+deriving DecidableEq, Repr
+
+inductive HOp where
+  | reload (c : Cfg)
+  | straddle (c : Cfg)
+deriving DecidableEq, Repr
+
+def HOp.cfg : HOp → Cfg
+  | .reload c => c
+  | .straddle c => c
+
+/-- `Restart` up to (not including) its return, with no client step in between -/
+def reloadHead (g : Nat) (m : M) (c : Cfg) : List Act :=
+  [.begin g c, .setup] ++ List.replicate (c.addrs.length + 1) .listen ++ [.serve, .stopOld]
+    ++ List.replicate m.cur.addrs.length .stop
+
+/-- what the client of the `idx`-th connection got: the generation that answered, `hang` if nobody did, `-` if there is
+no such connection (it was refused) -/
+def connAnswer (m : M) (idx : Nat) : String :=
+  match m.conns[idx]? with
+  | some c => (match c.answered with | some k => toString k | none => "hang")
+  | none => "-"
+
+/-- a fresh connection to `a`, accepted by whoever accepts there now, and answered -/
+def probe (m : M) (a : Nat) : M × String :=
+  let g := if m.new.accepts a then m.new.gen else m.cur.gen
+  let m' := run m [.connect a, .accept g a, .respond m.nextConn]
+  (m', connAnswer m' m.conns.length)
+
+/-- position of a socket identity in the list of those seen so far -/
+def pos : List Nat → Nat → Option Nat
+  | [], _ => none
+  | y :: ys, x => if y = x then some 0 else (pos ys x).map (· + 1)
+
+/-- socket identities renamed in order of first appearance; 0 = no socket -/
+def rename (seen : List Nat) (m : M) (a : Nat) : List Nat × Nat :=
+  if m.fds a = 0 then (seen, 0)
+  else match pos seen (m.sock a) with
+    | some i => (seen, i + 1)
+    | none => (seen ++ [m.sock a], seen.length + 1)
+
+def observe (seen : List Nat) (m : M) (res : String) (mid str : Option String) : M × List Nat × HObs :=
+  let r1 := rename seen m 1
+  let r2 := rename r1.1 m 2
+  let q1 := probe m 1
+  let q2 := probe q1.1 2
+  (q2.1, r2.1, { res := res, fd1 := m.fds 1, fd2 := m.fds 2, sk1 := r1.2, sk2 := r2.2, p1 := q1.2, p2 := q2.2,
+                 mid := mid, str := str })
+
+/-- `Restart` returned the instance of generation `g` -/
+def resOf (m : M) (g : Nat) : String := if m.cur.gen = g then "ok" else "err"
+
+def runOp (g : Nat) (seen : List Nat) (m : M) : HOp → M × List Nat × HObs
+  | .reload c =>
+    let m1 := run m (reloadHead g m c ++ [.finish])
+    observe seen m1 (resOf m1 g) none none
+  | .straddle c =>
+    let sidx := m.conns.length
+    let m0 := run m [.connect 1, .accept m.cur.gen 1]
+    let connected := m0.conns.length != sidx
+    let m1 := run m0 (reloadHead g m0 c)
+    let q := probe m1 1
+    let m2 := if connected then step q.1 (.respond m.nextConn) else q.1
+    let str := if connected then connAnswer m2 sidx else "-"
+    let m3 := step m2 .finish
+    observe seen m3 (resOf m3 g) (some q.2) (some str)
+
+def runOps : Nat → List Nat → M → List HOp → List HObs
+  | _, _, _, [] => []
+  | g, seen, m, op :: rest =>
+    let r := runOp g seen m op
+    r.2.2 :: runOps (g + 1) r.2.1 r.1 rest
+
+/-- the model's observations of a hand-over case: start on `c0.addrs`, then the operations -/
+def handoverRun (busy : List Nat) (c0 : Cfg) (hops : List HOp) : List HObs :=
+  let r := observe [] (M.init busy c0.addrs) "ok" none none
+  r.2.2 :: runOps 2 r.2.1 r.1 hops
+
 end Casket.Reload
